@@ -2018,6 +2018,16 @@ class Transport(threading.Thread, ClosingContextManager):
         key = self._key_info[self.host_key_type](Message(host_key))
         if key is None:
             raise SSHException("Unknown host key type")
+        # The signature must have been made with the host key algorithm that
+        # was negotiated (cert variants sign with their base algorithm), not
+        # with whatever algorithm its own blob happens to name.
+        expected = self.host_key_type.replace("-cert-v01@openssh.com", "")
+        if Message(sig).get_binary() != expected.encode("utf-8"):
+            raise SSHException(
+                "Host key signature does not use the negotiated algorithm ({})".format(  # noqa
+                    self.host_key_type
+                )
+            )
         if not key.verify_ssh_sig(self.H, Message(sig)):
             raise SSHException(
                 "Signature verification ({}) failed.".format(
